@@ -12,12 +12,18 @@
    textraw 0|1 <tree>                  -> hex(UTF-8) of the right-hand side of `C11_text_raw` | boxes (tree has a text box)
    fmt.pts (<+|-> <p/q> <+|-> <p/q>)*  -> the regenerated `LTCurve.get_pts`
 
+   textbin <codec> 0|1 <tree>          -> hex of the BYTES the model's binary sink receives from TextConverter (error
+                                          policy ignore; showpageno 0|1) through the codec state machine | bad-op (codec not modelled)
+   xmlbin <codec> s|k <tree>           -> the same for XMLConverter (strict) | encode-error
+   utf32dec <hex>                      -> hex(UTF-8) of `utf32Decode` (the decoder of theorem C11_sink_utf32) | undecodable
+
    fmt.f3 <+|-> <p/q>   fmt.d <+|-> <p/q>   fmt.bbox (<+|-> <p/q>)x4   -> the formatted number(s)
 
    strings are code points in hex joined by ',' ("-" = empty); <tree> is a word sequence, see
    tools/harness/props/c11.py `node_words`. -/
 import PdfVerif.Spec.Xml
 import PdfVerif.Gen.ConvertFmt
+import PdfVerif.Model.ConvertCodec
 
 open PdfVerif PdfVerif.Convert PdfVerif.Xml
 
@@ -136,6 +142,23 @@ def srat (sg q : String) : Option SRat :=
   | some r => if sg == "-" then some (true, r) else if sg == "+" then some (false, r) else none
   | none => none
 
+/-- the binary sink of the model for a named codec (the concrete state machines of Model/ConvertCodec.lean) -/
+def binSink (name : String) (ignore : Bool) (writes : List Str) : Option (Option Bytes) :=
+  match name with
+  | "utf-32" => some (sinkBinary utf32Codec ignore writes)
+  | "utf-16" => some (sinkBinary (utf16Codec true false) ignore writes)
+  | "utf-16-le" => some (sinkBinary (utf16Codec false false) ignore writes)
+  | "utf-16-be" => some (sinkBinary (utf16Codec false true) ignore writes)
+  | "utf-8" => some (sinkBinary (utf8Codec false) ignore writes)
+  | "utf-8-sig" => some (sinkBinary (utf8Codec true) ignore writes)
+  | "latin-1" => some (sinkBinary latin1Codec ignore writes)
+  | _ => none
+
+def showBin : Option (Option Bytes) → String
+  | some (some bs) => if bs.isEmpty then "-" else hexOfBytes bs
+  | some none => "encode-error"
+  | none => "bad-op"
+
 def step (line : String) : String :=
   match words line with
   | ["fmt.f3", sg, q] =>
@@ -160,6 +183,21 @@ def step (line : String) : String :=
       | _ => none
     match go ws with
     | some pts => let r := PdfVerif.Gen.ConvertFmt.get_pts pts; if r.isEmpty then "-" else String.ofList r
+    | none => "bad-op"
+  | "textbin" :: name :: pn :: tree =>
+    match parsePages tree with
+    | some ps => showBin (binSink name true (textDocWritesPn (pn == "1") ps))
+    | none => "bad-op"
+  | "xmlbin" :: name :: sf :: tree =>
+    match stripFlag sf, parsePages tree with
+    | some strip, some ps => showBin (binSink name false (xmlDocWrites strip (some name.toList) ps))
+    | _, _ => "bad-op"
+  | "utf32dec" :: hx :: [] =>
+    match bytesOfHex hx with
+    | some bs =>
+      match utf32Decode bs with
+      | some s => hexOfStr s
+      | none => "undecodable"
     | none => "bad-op"
   | "textpn" :: pn :: tree =>
     match parsePages tree with
